@@ -51,63 +51,6 @@ theorem C07_agree_partial (nst : Nat) (dirs : List DirEnt) (h : List WCmd) (u : 
     AgreeOn (viaCache (runHistory (World.init nst dirs) h) u self) (runHistory (World.init nst dirs) h).db s self :=
   (load_inv (history_inv nst dirs h) u self).2 s hs
 
-/-- one stack, one element per key: `find?` is determined by membership -/
-theorem findDecl_agree {a b : Spec} {s : Nat} {f : Flav} {n : Name} (h : AgreeOnN a b s f n) (hb : KeysUnique b)
-    (v : Ver) : a.findDecl s n v f = b.findDecl s n v f := by
-  unfold Spec.findDecl
-  cases ha : a.decls.find? (·.hasKey s n v f) with
-  | none =>
-    cases hbf : b.decls.find? (·.hasKey s n v f) with
-    | none => rfl
-    | some y =>
-      exfalso
-      have hy := List.find?_some hbf
-      have k := Decl.hasKey_iff.mp hy
-      have hmem := (h.1 y k.1 k.2.2.2 k.2.1).mpr (List.mem_of_find?_eq_some hbf)
-      rw [List.find?_eq_none] at ha
-      exact ha y hmem hy
-  | some x =>
-    have hx := List.find?_some ha
-    have kx := Decl.hasKey_iff.mp hx
-    have hxb := (h.1 x kx.1 kx.2.2.2 kx.2.1).mp (List.mem_of_find?_eq_some ha)
-    cases hbf : b.decls.find? (·.hasKey s n v f) with
-    | none => rw [List.find?_eq_none] at hbf; exact absurd hx (hbf x hxb)
-    | some y =>
-      have hy := List.find?_some hbf
-      have ky := Decl.hasKey_iff.mp hy
-      have : x = y := hb.decl x hxb y (List.mem_of_find?_eq_some hbf)
-        (Decl.sameKey_iff.mpr ⟨kx.1.trans ky.1.symm, kx.2.1.trans ky.2.1.symm, kx.2.2.1.trans ky.2.2.1.symm,
-          kx.2.2.2.trans ky.2.2.2.symm⟩)
-      rw [this]
-
-theorem tagVer_agree {a b : Spec} {s : Nat} {f : Flav} {n : Name} (h : AgreeOnN a b s f n) (hb : KeysUnique b)
-    (t : Tag) : a.tagVer s t n f = b.tagVer s t n f := by
-  unfold Spec.tagVer
-  cases ha : a.tags.find? (·.hasKey s t n f) with
-  | none =>
-    cases hbf : b.tags.find? (·.hasKey s t n f) with
-    | none => rfl
-    | some y =>
-      exfalso
-      have hy := List.find?_some hbf
-      have k := TagRec.hasKey_iff.mp hy
-      have hmem := (h.2 y k.1 k.2.2.2 k.2.2.1).mpr (List.mem_of_find?_eq_some hbf)
-      rw [List.find?_eq_none] at ha
-      exact ha y hmem hy
-  | some x =>
-    have hx := List.find?_some ha
-    have kx := TagRec.hasKey_iff.mp hx
-    have hxb := (h.2 x kx.1 kx.2.2.2 kx.2.2.1).mp (List.mem_of_find?_eq_some ha)
-    cases hbf : b.tags.find? (·.hasKey s t n f) with
-    | none => rw [List.find?_eq_none] at hbf; exact absurd hx (hbf x hxb)
-    | some y =>
-      have hy := List.find?_some hbf
-      have ky := TagRec.hasKey_iff.mp hy
-      have : x = y := hb.tag x hxb y (List.mem_of_find?_eq_some hbf)
-        (TagRec.sameKey_iff.mpr ⟨kx.1.trans ky.1.symm, kx.2.1.trans ky.2.1.symm, kx.2.2.1.trans ky.2.2.1.symm,
-          kx.2.2.2.trans ky.2.2.2.symm⟩)
-      rw [this]
-
 /-- **The four queries of the property, native flavor** (`self`), any user, any stack of the path, after any
 history: *is (n, v) declared*, *where is it* (the declaration found: directory and table), *which tags does it
 carry*, *which version has tag t* — through the cache and through the files. -/
